@@ -27,7 +27,7 @@ import traceback
 import sfc_models.equation_solver
 from sfc_models.equation import EquationBlock, Equation
 from sfc_models.equation_parser import EquationParser
-from sfc_models.utils import Logger, LogicError
+from sfc_models.utils import Logger, LogicError, list_tokens, replace_token_from_lookup
 
 
 class EconomicObject(object):
@@ -370,6 +370,29 @@ class Model(EconomicObject):
             lookup[alias] = sector.GetVariableName(varname)
         for sector in self.GetSectors():
             sector._ReplaceAliases(lookup)
+        # Aliases may also have been embedded in model-level equations and exogenous definitions.
+        self.GlobalVariables = [(var, self._ReplaceAliasesInString(eqn, lookup), desc)
+                                for var, eqn, desc in self.GlobalVariables]
+        self.Exogenous = [(sector, varname, self._ReplaceAliasesInString(value, lookup))
+                          for sector, varname, value in self.Exogenous]
+
+    @staticmethod
+    def _ReplaceAliasesInString(eqn, lookup):
+        """
+        Replace aliases in a string; the string is returned untouched if it holds no alias.
+        :param eqn: str
+        :param lookup: dict
+        :return: str
+        """
+        if type(eqn) is not str:
+            return eqn
+        try:
+            tokens = list_tokens(eqn)
+        except Exception:
+            return eqn
+        if any(tok in lookup for tok in tokens):
+            return replace_token_from_lookup(eqn, lookup)
+        return eqn
 
     def LogInfo(self, generate_full_codes=True, ex=None):  # pragma: no cover
         """
